@@ -751,14 +751,18 @@ fn main() {
         return;
     }
     let thorough = args.tier == "thorough";
+    // self-test of the oracle: it must reject the raw poison and a lone ampersand, accept the escaped poison and literal tokens
+    assert!(oracle_escaped(POISON, false).is_err() && oracle_escaped("a&b", false).is_err() && oracle_escaped("a&b", true).is_ok());
+    assert!(oracle_escaped(&format!("<L12 \"'>{}<L3 \"'>", esc(POISON)), false).is_ok());
+    assert!(oracle_escaped("<L12 \"'> <M1 \"'>", false).is_err());
     let mut rng = Rng::new(args.seed);
     let mut meta = Meta::default();
     let hdr = "From TeraV Require Import Model.Value Model.Instr Model.VM Model.Taint Model.WorldC01 Corr.CorrC01.";
     let mut sink = Sink::new(&args.out, "c01vm", hdr, "check_c01");
-    sink.shard_cap_set(if thorough { 120 } else { 40 });
+    sink.shard_cap_set(if thorough { 100 } else { 20 });
 
     // ---- programs
-    let n_gen = if thorough { 5200 } else { 300 };
+    let n_gen = if thorough { 9000 } else { 460 };
     let mut progs: Vec<(Prog, u8)> = Vec::new(); // (program, suffix mode)
     for k in 0..n_gen {
         let (ext, mode): (&'static str, u8) = match k % 5 {
@@ -805,7 +809,7 @@ fn main() {
     let mut oracle_only = 0usize;
     let mut oracle_only_nontrivial = 0usize;
     let mut skipped_register = 0usize;
-    let mut model_budget: usize = if thorough { 14000 } else { 700 };
+    let mut model_budget: usize = if thorough { 4000 } else { 320 };
     let mut distribution: std::collections::BTreeMap<String, usize> = Default::default();
 
     for (pi, (p, smode)) in progs.iter().enumerate() {
@@ -886,7 +890,7 @@ fn main() {
                 }
                 // ---- model side
                 let strict = ae_on && !p.uses_safe && !p.lit_special && !user_safe;
-                if su.in_subset && model_budget > 0 && (strict || rng.chance(1, 2) || thorough) {
+                if su.in_subset && model_budget > 0 && (rng.chance(1, if thorough { 12 } else { 5 }) || (strict && rng.chance(1, 2)) || !p.label.starts_with("gen#") && rng.chance(1, 3)) {
                     model_budget -= 1;
                     let g = format!(
                         "{{| k_templates := {}; k_components := {}; k_entry := {}; k_mode := MRender {}; k_ctx := {}; k_safe := {}; k_strict := {}; k_impl := {} |}}",
@@ -932,7 +936,7 @@ fn main() {
                             }
                         }
                         let src_tpl = su.comp_src_tpl.iter().find(|x| x.0 == cd.name).map(|x| x.1.clone());
-                        if let (true, Some(src_tpl), true) = (su.in_subset, src_tpl, model_budget > 0) {
+                        if let (true, Some(src_tpl), true) = (su.in_subset, src_tpl, model_budget > 0 && rng.chance(1, if thorough { 12 } else { 5 })) {
                             model_budget -= 1;
                             let g = format!(
                                 "{{| k_templates := {}; k_components := {}; k_entry := {}; k_mode := MComponent {} {} {}; k_ctx := {}; k_safe := {}; k_strict := false; k_impl := {} |}}",
